@@ -42,7 +42,11 @@ uint64_t g_v;     /* ghost variable index at which coefficient-wise facts are in
 #endif
 /* ===================== PART 0: callee contracts on the term container ===================== */
 /* ASSUMED (shared_ptr ownership plumbing, never enforced): copying a shared_ptr passes the same map on,
- * destroying one changes no map, make_shared<map_t>() yields a new, empty map. */
+ * destroying one changes no map, make_shared<map_t>() yields a new, empty map.
+ * These three functions are DROPPED from the unit (unit.json): in the ABSTRACT reading their calls are replaced by the
+ * contracts below (the driver replaces a dropped function that has a contract in every check); in the CONCRETE reading
+ * the contracts are not declared, so that the executable models of units/lincst/lemodel.c (the same facts) are used. */
+#ifndef LINCST_CONCRETE
 void SPN(C2ERKSC_)(SPT *self, SPT *o)
 __CPROVER_requires(FRESH(sp_copy, self, sizeof(SPT)) && FRESH(sp_copy, o, sizeof(SPT)))
 __CPROVER_assigns(*self)
@@ -56,6 +60,7 @@ __CPROVER_requires(FRESH(sp_make, ret, sizeof(SPT)))
 __CPROVER_assigns(*ret)
 __CPROVER_ensures(__CPROVER_is_fresh(ret->f0.f0, sizeof(FM)) && FM_SIZE(ret->f0.f0) == 0)
 __CPROVER_ensures(MAP_CONST(ret->f0.f0) && MAP_E(ret->f0.f0) == 0);
+#endif
 
 /* is_constant(): the expression has no term (then its variable part is 0 under every valuation: built into MAP_E) */
 unsigned char LEK(11is_constantEv)(LE *self)
